@@ -76,6 +76,10 @@ If the number of desired trees is > number of input trees:
 					}
 				}
 			}
+			if totaltrees == 0 {
+				// nothing to sample from
+				outtrees = outtrees[:0]
+			}
 		}
 
 		if f, err = openWriteFile(outtreefile); err != nil {
